@@ -1,11 +1,13 @@
 //! C19: the real `ChaosLayer` (built through its public builder) over the scripted inner service.
 //!
-//! header: `chaos seed=<u64> [erate=<spec>] lrate=<spec> min_us=<µs> max_us=<µs> [order=<0|1>]`
+//! header: `chaos seed=<u64> [erate=<spec>] lrate=<spec> min_us=<µs> max_us=<µs> [order=<0|1>] [handles=<k>]`
 //!   rate spec: `T<n>`   = n / 2^53 (n ≤ 2^53; every such value is an exact f64)
 //!              `b<bits>` = the f64 with these bits (clamped to [0,1] like the builder does)
 //!              `d<i>[+1|-1]` = the i-th f64 of `StdRng::seed_from_u64(seed)` (± one step of 2^-53):
 //!                              puts the rate exactly on / next to a roll the layer will see
 //!   no `erate` key = latency-only layer (`NoErrorInjection`); `order=1` = `.error_fn().error_rate()`
+//!   `handles=k`: which handle of the service serves a request. 0 (default) = a fresh clone of the
+//!   pristine service per request; k >= 1 = k clones taken up front, request c goes to handle c mod k
 //!
 //! No hook into the repository: the adapter holds a mirror `StdRng::seed_from_u64(seed)`. In the
 //! first poll of a call future it draws speculatively on clones of the mirror, in the order the
@@ -14,18 +16,33 @@
 //! event callbacks, and the mirror is advanced by the draws that branch consumes. The log
 //! contains observables only: inner calls (with their virtual instants) and results.
 //!
-//! Determinism is also checked directly: every request is given to a second, equally seeded
-//! layer instance (over a silent inner service) polled in the same step; any difference in
-//! what the two instances do is logged as `twin-mismatch`.
+//! Determinism is also checked directly, twice, without the model:
+//!  * twin: every request is given to a second, equally seeded layer instance (over a silent inner
+//!    service) polled in the same step, but driven differently: the twin is ONE handle that is never
+//!    cloned, and its `call()` happens only at the first poll (instance A: clones, `call()` at
+//!    `arrive`). Same seed + same order of requests must give the same decisions whichever clone
+//!    serves a request and whenever the future was created; any difference in behaviour is logged as
+//!    `twin-mismatch`, and the decisions the two instances report for a request (`#obs` / `#obsb`) are compared.
+//!  * stream: a free-running oracle generator `StdRng::seed_from_u64(seed)`, never synchronised with
+//!    the layer, yields "decision i of the seed's stream" for the i-th first poll (`#pred c <d>`); what
+//!    the layer really decided for that request is taken from its event callbacks (`#obs c <d>`).
+//!
+//! `manual stress threads=<N> calls=<K>`: real-OS-thread stress search (NOT a proof) for the part no
+//! single-threaded schedule can reach: N threads, each with a clone of one freshly built, equally
+//! configured and seeded service, make K calls in total (first poll only). Oracles: the property
+//! clauses themselves — see `stress`.
 use crate::world::*;
 use futures::future::BoxFuture;
 use rand::rngs::StdRng;
 use rand::{Rng, SeedableRng};
-use std::collections::HashMap;
+use std::cell::{Cell, RefCell};
+use std::collections::{BTreeMap, HashMap, VecDeque};
 use std::future::Future;
 use std::pin::Pin;
+use std::rc::Rc;
+use std::sync::atomic::{AtomicBool, AtomicU64, Ordering};
 use std::sync::{Arc, Mutex};
-use std::task::{Context, Poll};
+use std::task::{Context, Poll, Waker};
 use std::time::Duration;
 use tower::{Layer, Service};
 use tower_resilience_chaos::ChaosLayer;
@@ -33,6 +50,8 @@ use tower_resilience_chaos::ChaosLayer;
 const P53: u64 = 1 << 53;
 type Fut = BoxFuture<'static, Result<Resp, IErr>>;
 type MakeFut = Box<dyn FnMut(Req) -> Option<Fut>>;
+type Hook0 = Box<dyn Fn() + Send + Sync>;
+type HookD = Box<dyn Fn(Duration) + Send + Sync>;
 type Calls = Arc<Mutex<HashMap<usize, u64>>>;
 
 /// `⌈rate·2^53⌉` for a rate in [0,1], from the bits of the f64 (exact integer arithmetic)
@@ -98,6 +117,7 @@ struct Params {
     min: Duration,
     max: Duration,
     order: u64,
+    handles: usize,
 }
 impl Params {
     fn min_ms(&self) -> u64 {
@@ -106,6 +126,51 @@ impl Params {
     fn max_ms(&self) -> u64 {
         self.max.as_millis() as u64
     }
+    fn et(&self) -> u64 {
+        self.erate.map(threshold).unwrap_or(0)
+    }
+    fn lt(&self) -> u64 {
+        threshold(self.lrate)
+    }
+}
+
+/// one decision of the layer for one request
+#[derive(Clone, Copy, Debug, PartialEq, Eq, PartialOrd, Ord)]
+enum Dec {
+    Error,
+    Lat(u64),
+    Pass,
+}
+impl std::fmt::Display for Dec {
+    fn fmt(&self, f: &mut std::fmt::Formatter<'_>) -> std::fmt::Result {
+        match self {
+            Dec::Error => write!(f, "error"),
+            Dec::Lat(ms) => write!(f, "lat:{}", ms),
+            Dec::Pass => write!(f, "pass"),
+        }
+    }
+}
+
+/// The property's "function of the seed and the order of requests", stated once more on the harness
+/// side for the oracle generator: the next decision of the stream of `rng` (exact integer comparison
+/// of 53-bit numerators with the thresholds; draws in the documented order roll, roll, range). Advances
+/// `rng` by exactly the draws of that decision.
+fn decide_next(rng: &mut StdRng, et: u64, lt: u64, lo: u64, hi: u64) -> Dec {
+    let mut e_roll = P53;
+    if et > 0 {
+        let x: f64 = rng.random();
+        e_roll = (x * P53 as f64) as u64;
+    }
+    if e_roll < et {
+        return Dec::Error;
+    }
+    if lt > 0 {
+        let x: f64 = rng.random();
+        if ((x * P53 as f64) as u64) < lt {
+            return Dec::Lat(if hi > lo { rng.random_range(lo..=hi) } else { lo });
+        }
+    }
+    Dec::Pass
 }
 
 /// records the instant of the inner call per caller, then delegates
@@ -146,40 +211,118 @@ fn inject(req: &Req) -> IErr {
     IErr { kind: 99, v: req.tag }
 }
 
-fn to_make<Sv>(svc: Sv) -> MakeFut
-where
-    Sv: Service<Req, Response = Resp, Error = IErr, Future = Fut> + Clone + 'static,
-{
-    Box::new(move |req| {
-        let mut s = svc.clone();
-        match poll_ready_once(&mut s) {
-            Poll::Ready(Ok(())) => Some(s.call(req)),
-            _ => None,
-        }
-    })
+/// what is done with the service once it is built (its type depends on the builder path taken)
+trait Consumer<R> {
+    fn take<Sv>(self, svc: Sv) -> R
+    where
+        Sv: Service<Req, Response = Resp, Error = IErr, Future = Fut> + Clone + Send + 'static;
 }
 
-/// Build one layer instance. `mirror` (instance A only) is advanced from the layer's event
-/// callbacks by exactly the draws the reported branch consumes.
-fn build<S>(inner: S, p: &Params, mirror: Option<Arc<Mutex<StdRng>>>) -> MakeFut
+/// instance A: requests are served by clones (`handles` = 0: a fresh clone of the pristine service per
+/// request; k >= 1: k clones taken up front, request c goes to handle c mod k)
+struct Cloning(usize);
+impl Consumer<MakeFut> for Cloning {
+    fn take<Sv>(self, svc: Sv) -> MakeFut
+    where
+        Sv: Service<Req, Response = Resp, Error = IErr, Future = Fut> + Clone + Send + 'static,
+    {
+        let k = self.0;
+        let mut hs: Vec<Sv> = (0..k).map(|_| svc.clone()).collect();
+        Box::new(move |req| {
+            let mut fresh;
+            let s = if k == 0 {
+                fresh = svc.clone();
+                &mut fresh
+            } else {
+                &mut hs[req.c % k]
+            };
+            match poll_ready_once(s) {
+                Poll::Ready(Ok(())) => Some(s.call(req)),
+                _ => None,
+            }
+        })
+    }
+}
+
+/// the twin: one handle, never cloned
+struct Single;
+impl Consumer<MakeFut> for Single {
+    fn take<Sv>(self, mut svc: Sv) -> MakeFut
+    where
+        Sv: Service<Req, Response = Resp, Error = IErr, Future = Fut> + Clone + Send + 'static,
+    {
+        Box::new(move |req| match poll_ready_once(&mut svc) {
+            Poll::Ready(Ok(())) => Some(svc.call(req)),
+            _ => None,
+        })
+    }
+}
+
+struct Hooks {
+    e: Hook0,
+    l: HookD,
+    p: Hook0,
+}
+/// Build one layer instance through the public builder and hand the service to `k`.
+fn build<S, C, R>(inner: S, p: &Params, h: Hooks, k: C) -> R
 where
     S: Service<Req, Response = Resp, Error = IErr> + Clone + Send + 'static,
     S::Future: Send + 'static,
+    C: Consumer<R>,
 {
+    let Hooks { e, l, p: pt } = h;
+    let b = ChaosLayer::builder()
+        .name("verif")
+        .on_error_injected(move || e())
+        .on_latency_injected(move |d| l(d))
+        .on_passed_through(move || pt())
+        .latency_rate(p.lrate)
+        .min_latency(p.min)
+        .max_latency(p.max)
+        .seed(p.seed);
+    let f: fn(&Req) -> IErr = inject;
+    match p.erate {
+        None => k.take(b.build().layer(inner)),
+        Some(r) if p.order == 0 => k.take(b.error_rate(r).error_fn(f).build().layer(inner)),
+        Some(r) => k.take(b.error_fn(f).error_rate(r).build().layer(inner)),
+    }
+}
+
+/// the request whose future is being polled (instance A): the layer's callbacks carry no request
+type Cur = Arc<Mutex<Option<usize>>>;
+
+fn note(what: &str, cur: &Cur, d: Dec) {
+    if let Some(c) = *cur.lock().unwrap() {
+        log_raw(format!("{} {} {}", what, c, d));
+    }
+}
+
+/// Hooks of the twin: only the decision it reports for the request being polled (`#obsb`).
+fn hooks_b(cur: Cur) -> Hooks {
+    let (c1, c2, c3) = (cur.clone(), cur.clone(), cur);
+    Hooks {
+        e: Box::new(move || note("#obsb", &c1, Dec::Error)),
+        l: Box::new(move |d| note("#obsb", &c2, Dec::Lat(d.as_millis() as u64))),
+        p: Box::new(move || note("#obsb", &c3, Dec::Pass)),
+    }
+}
+
+/// Hooks of instance A: the mirror is advanced from the layer's event callbacks by exactly the draws
+/// the reported branch consumes; the reported branch is also noted as the observed decision (`#obs`).
+fn hooks_a(p: &Params, mirror: Arc<Mutex<StdRng>>, cur: Cur) -> Hooks {
     let has_e = p.erate.map(|r| r > 0.0).unwrap_or(false);
     let has_l = p.lrate > 0.0;
     let (lo, hi) = (p.min_ms(), p.max_ms());
     let (m1, m2, m3) = (mirror.clone(), mirror.clone(), mirror);
-    let b = ChaosLayer::builder()
-        .name("verif")
-        .on_error_injected(move || {
-            if let Some(m) = &m1 {
-                let _: f64 = m.lock().unwrap().random();
-            }
-        })
-        .on_latency_injected(move |_d| {
-            if let Some(m) = &m2 {
-                let mut m = m.lock().unwrap();
+    let (c1, c2, c3) = (cur.clone(), cur.clone(), cur);
+    Hooks {
+        e: Box::new(move || {
+            let _: f64 = m1.lock().unwrap().random();
+            note("#obs", &c1, Dec::Error);
+        }),
+        l: Box::new(move |d| {
+            {
+                let mut m = m2.lock().unwrap();
                 if has_e {
                     let _: f64 = m.random();
                 }
@@ -188,10 +331,11 @@ where
                     let _: u64 = m.random_range(lo..=hi);
                 }
             }
-        })
-        .on_passed_through(move || {
-            if let Some(m) = &m3 {
-                let mut m = m.lock().unwrap();
+            note("#obs", &c2, Dec::Lat(d.as_millis() as u64));
+        }),
+        p: Box::new(move || {
+            {
+                let mut m = m3.lock().unwrap();
                 if has_e {
                     let _: f64 = m.random();
                 }
@@ -199,26 +343,21 @@ where
                     let _: f64 = m.random();
                 }
             }
-        })
-        .latency_rate(p.lrate)
-        .min_latency(p.min)
-        .max_latency(p.max)
-        .seed(p.seed);
-    let f: fn(&Req) -> IErr = inject;
-    match p.erate {
-        None => to_make(b.build().layer(inner)),
-        Some(r) if p.order == 0 => to_make(b.error_rate(r).error_fn(f).build().layer(inner)),
-        Some(r) => to_make(b.error_fn(f).error_rate(r).build().layer(inner)),
+            note("#obs", &c3, Dec::Pass);
+        }),
     }
 }
 
 pub struct Adapter {
     p: Params,
     make_a: MakeFut,
-    make_b: MakeFut,
+    make_b: Rc<RefCell<MakeFut>>,
     a_calls: Calls,
     b_calls: Calls,
     mirror: Arc<Mutex<StdRng>>,
+    oracle: Rc<RefCell<StdRng>>,
+    cur: Cur,
+    cur_b: Cur,
 }
 
 impl Adapter {
@@ -231,13 +370,22 @@ impl Adapter {
             min: Duration::from_micros(kv.u64("min_us", 0)),
             max: Duration::from_micros(kv.u64("max_us", 0)),
             order: kv.u64("order", 0),
+            handles: kv.u64("handles", 0).min(64) as usize,
         };
         let mirror = Arc::new(Mutex::new(StdRng::seed_from_u64(seed)));
+        let oracle = Rc::new(RefCell::new(StdRng::seed_from_u64(seed)));
+        let cur: Cur = Default::default();
+        let cur_b: Cur = Default::default();
         let a_calls: Calls = Default::default();
         let b_calls: Calls = Default::default();
-        let make_a = build(Tap { inner: Inner::new(), calls: a_calls.clone() }, &p, Some(mirror.clone()));
-        let make_b = build(Tap { inner: Quiet, calls: b_calls.clone() }, &p, None);
-        Adapter { p, make_a, make_b, a_calls, b_calls, mirror }
+        let make_a = build(
+            Tap { inner: Inner::new(), calls: a_calls.clone() },
+            &p,
+            hooks_a(&p, mirror.clone(), cur.clone()),
+            Cloning(p.handles),
+        );
+        let make_b = build(Tap { inner: Quiet, calls: b_calls.clone() }, &p, hooks_b(cur_b.clone()), Single);
+        Adapter { p, make_a, make_b: Rc::new(RefCell::new(make_b)), a_calls, b_calls, mirror, oracle, cur, cur_b }
     }
 }
 
@@ -252,6 +400,9 @@ pub fn render(r: Result<Resp, IErr>) -> String {
 struct Pair {
     c: usize,
     fa: Fut,
+    /// the twin's request: its `call()` is made at the first poll, on the twin's only handle
+    req_b: Option<Req>,
+    make_b: Rc<RefCell<MakeFut>>,
     fb: Option<Fut>,
     b_res: Option<Result<Resp, IErr>>,
     first: bool,
@@ -259,6 +410,9 @@ struct Pair {
     a_calls: Calls,
     b_calls: Calls,
     mirror: Arc<Mutex<StdRng>>,
+    oracle: Rc<RefCell<StdRng>>,
+    cur: Cur,
+    cur_b: Cur,
     lo: u64,
     hi: u64,
     et: u64,
@@ -296,15 +450,25 @@ impl Future for Pair {
             obs("r2", (x2 * P53 as f64) as u64);
             obs("g1", g1);
             obs("g2", g2);
+            // decision i of the seed's stream for the i-th first poll, from the free-running oracle
+            let pred = decide_next(&mut this.oracle.borrow_mut(), this.et, this.lt, this.lo, this.hi);
+            log_raw(format!("#pred {} {}", this.c, pred));
+            if let Some(req) = this.req_b.take() {
+                this.fb = (this.make_b.borrow_mut())(req);
+            }
         }
         // the twin first: a scripted panic of A's inner service unwinds out of this function
         if let Some(fb) = this.fb.as_mut() {
+            *this.cur_b.lock().unwrap() = Some(this.c);
             if let Poll::Ready(r) = fb.as_mut().poll(cx) {
                 this.b_res = Some(r);
                 this.fb = None;
             }
+            *this.cur_b.lock().unwrap() = None;
         }
+        *this.cur.lock().unwrap() = Some(this.c);
         let ra = this.fa.as_mut().poll(cx);
+        *this.cur.lock().unwrap() = None;
         let a_inj = matches!(&ra, Poll::Ready(Err(e)) if e.kind == 99);
         let b_inj = matches!(&this.b_res, Some(Err(e)) if e.kind == 99);
         let (sa, sb) = (state(a_inj, &this.a_calls, this.c), state(b_inj, &this.b_calls, this.c));
@@ -319,38 +483,342 @@ impl Future for Pair {
     }
 }
 
+// ------------------------------------------------------------------ real-thread stress search
+
+thread_local! {
+    /// decisions reported by the layer's callbacks during the current poll on this thread
+    static TL_DECS: RefCell<Vec<Dec>> = RefCell::new(Vec::new());
+    /// inner calls made during the current poll on this thread
+    static TL_INNER: Cell<u64> = Cell::new(0);
+}
+
+/// inner service of the stress instance: counts its calls, answers at once
+#[derive(Clone)]
+struct Counting(Arc<AtomicU64>);
+impl Service<Req> for Counting {
+    type Response = Resp;
+    type Error = IErr;
+    type Future = std::future::Ready<Result<Resp, IErr>>;
+    fn poll_ready(&mut self, _cx: &mut Context<'_>) -> Poll<Result<(), IErr>> {
+        Poll::Ready(Ok(()))
+    }
+    fn call(&mut self, req: Req) -> Self::Future {
+        self.0.fetch_add(1, Ordering::Relaxed);
+        TL_INNER.with(|x| x.set(x.get() + 1));
+        std::future::ready(Ok(Resp { v: 0, c: req.c, tag: req.tag }))
+    }
+}
+
+struct ThreadOut {
+    decs: Vec<Dec>,
+    /// calls whose first poll returned the injected error / anything else at once / pending
+    failed: u64,
+    returned: u64,
+    pending: u64,
+    /// first call of this thread whose behaviour contradicts the decision the layer reported for it
+    anomaly: Option<String>,
+    anomalies: u64,
+    /// first call of this thread that does not do what the configuration demands of every call
+    undemanded: Option<String>,
+}
+
+struct Stress {
+    threads: usize,
+    calls: usize,
+    /// what the configuration demands of EVERY call, if anything: error rate 1 => `Some(Dec::Error)`,
+    /// both rates 0 => `Some(Dec::Pass)`
+    every: Option<Dec>,
+}
+struct StressOut {
+    per_thread: Vec<ThreadOut>,
+    /// threads / runtimes could not be created: nothing was checked
+    aborted: bool,
+}
+
+impl Consumer<StressOut> for Stress {
+    fn take<Sv>(self, svc: Sv) -> StressOut
+    where
+        Sv: Service<Req, Response = Resp, Error = IErr, Future = Fut> + Clone + Send + 'static,
+    {
+        let n = self.threads;
+        let every = self.every;
+        // start line: every thread reports ready and spins until `go`; `stop` = the run is aborted because a
+        // thread (or its runtime) could not be created — an infrastructure problem, never a finding
+        let ready = Arc::new(AtomicU64::new(0));
+        let go = Arc::new(AtomicBool::new(false));
+        let stop = Arc::new(AtomicBool::new(false));
+        let mut handles = Vec::new();
+        for tid in 0..n {
+            // every thread owns a clone of the one service: all of them share its generator
+            let mut s = svc.clone();
+            let quota = self.calls / n + usize::from(tid < self.calls % n);
+            let (ready, go, stop_t) = (ready.clone(), go.clone(), stop.clone());
+            let spawned = std::thread::Builder::new().name(format!("stress-{}", tid)).spawn(move || {
+                // a tiny runtime of its own, only so that `tokio::time::sleep` can be created and polled
+                let rt = tokio::runtime::Builder::new_current_thread().enable_time().start_paused(true).build();
+                if rt.is_err() {
+                    stop_t.store(true, Ordering::SeqCst);
+                }
+                let _g = rt.as_ref().ok().map(|rt| rt.enter());
+                let waker = Waker::from(Arc::new(Flag::new(false)));
+                let mut cx = Context::from_waker(&waker);
+                let plan: Arc<Mutex<VecDeque<Step>>> = Default::default();
+                let mut out = ThreadOut { decs: Vec::with_capacity(quota), failed: 0, returned: 0, pending: 0, anomaly: None, anomalies: 0, undemanded: None };
+                ready.fetch_add(1, Ordering::SeqCst);
+                while !go.load(Ordering::Acquire) {
+                    std::hint::spin_loop();
+                    std::thread::yield_now();
+                }
+                for i in 0..quota {
+                    if stop_t.load(Ordering::Relaxed) {
+                        break;
+                    }
+                    TL_DECS.with(|d| d.borrow_mut().clear());
+                    TL_INNER.with(|x| x.set(0));
+                    let tag = (tid * 1_000_000 + i) as u64;
+                    let req = Req { c: tid, key: 0, tag, plan: plan.clone() };
+                    if !matches!(s.poll_ready(&mut cx), Poll::Ready(Ok(()))) {
+                        out.anomalies += 1;
+                        out.anomaly.get_or_insert(format!("thread {} call #{}: poll_ready not ready", tid, i));
+                        continue;
+                    }
+                    let mut fut = s.call(req);
+                    let r = fut.as_mut().poll(&mut cx);
+                    drop(fut);
+                    let inner = TL_INNER.with(|x| x.get());
+                    let decs: Vec<Dec> = TL_DECS.with(|d| d.borrow().clone());
+                    let shown = match &r {
+                        Poll::Ready(Ok(x)) => format!("returned ok (tag {})", x.tag),
+                        Poll::Ready(Err(e)) if e.kind == 99 => format!("failed with the injected error (tag {})", e.v),
+                        Poll::Ready(Err(e)) => format!("failed with err{}", e.kind),
+                        Poll::Pending => "is delayed (pending)".to_string(),
+                    };
+                    match &r {
+                        Poll::Ready(Err(e)) if e.kind == 99 => out.failed += 1,
+                        Poll::Ready(_) => out.returned += 1,
+                        Poll::Pending => out.pending += 1,
+                    }
+                    // the behaviour of this call against the one decision the layer reported for it
+                    let consistent = match (decs.as_slice(), &r) {
+                        ([Dec::Error], Poll::Ready(Err(e))) => e.kind == 99 && e.v == tag && inner == 0,
+                        ([Dec::Pass], Poll::Ready(Ok(x))) => x.tag == tag && inner == 1,
+                        ([Dec::Lat(0)], Poll::Ready(Ok(x))) => x.tag == tag && inner == 1,
+                        ([Dec::Lat(0)], Poll::Pending) => inner == 0,
+                        ([Dec::Lat(_)], Poll::Pending) => inner == 0,
+                        _ => false,
+                    };
+                    let demanded = match (every, &r) {
+                        (Some(Dec::Error), Poll::Ready(Err(e))) => e.kind == 99 && inner == 0,
+                        (Some(Dec::Pass), Poll::Ready(Ok(_))) => inner == 1,
+                        (Some(_), _) => false,
+                        (None, _) => true,
+                    };
+                    if !demanded && out.undemanded.is_none() {
+                        out.undemanded = Some(format!(
+                            "thread {} call #{} (after {} calls of this thread that failed with the injected error): the call {} and the inner service was called {} time(s)",
+                            tid, i, out.failed - u64::from(matches!(&r, Poll::Ready(Err(e)) if e.kind == 99)), shown, inner
+                        ));
+                    }
+                    if !consistent {
+                        out.anomalies += 1;
+                        let ds: Vec<String> = decs.iter().map(|d| d.to_string()).collect();
+                        out.anomaly.get_or_insert(format!(
+                            "thread {} call #{}: the layer reported the decision(s) [{}] but the call {} and the inner service was called {} time(s)",
+                            tid, i, ds.join(","), shown, inner
+                        ));
+                    }
+                    if let [d] = decs.as_slice() {
+                        out.decs.push(*d);
+                    }
+                }
+                out
+            });
+            match spawned {
+                Ok(h) => handles.push(h),
+                Err(_) => stop.store(true, Ordering::SeqCst),
+            }
+        }
+        while ready.load(Ordering::SeqCst) < handles.len() as u64 {
+            std::thread::yield_now();
+        }
+        go.store(true, Ordering::Release);
+        let per_thread = handles.into_iter().map(|h| h.join().expect("stress thread")).collect();
+        StressOut { per_thread, aborted: stop.load(Ordering::SeqCst) }
+    }
+}
+
+fn wall_us() -> u128 {
+    std::time::SystemTime::now().duration_since(std::time::UNIX_EPOCH).map(|d| d.as_micros()).unwrap_or(0)
+}
+
+impl Adapter {
+    /// Stress search on real OS threads. N threads, each with its own clone of ONE freshly built
+    /// service (same configuration, same seed, a counting inner service) make K calls in total,
+    /// first poll only, all released together from a start line. The oracles are clauses of the property:
+    ///  1. every call behaves as the single decision the layer reported for it (injected error =>
+    ///     that request's error, inner service not called; pass => inner called once; delay => pending);
+    ///  2. error rate 1: every call fails and the inner service is never called; rates 0/0: every
+    ///     call passes (special cases of 3, stated separately);
+    ///  3. seeded determinism under any thread interleaving: each request consumes exactly its own
+    ///     rolls, atomically (the generator's mutex), so the MULTISET of the decisions of the K calls
+    ///     is the multiset of the first K decisions of the seed's stream (computed here sequentially
+    ///     with the oracle generator).
+    /// Nondeterministic by nature (real scheduling): a clean run proves nothing, a failing run is a
+    /// concrete counter-example and is reported in full (`#stress-fail`).
+    fn stress(&mut self, kv: &Kv) {
+        let threads = kv.u64("threads", 4).clamp(1, 64) as usize;
+        let calls = kv.u64("calls", 1000).min(50_000_000) as usize;
+        let (et, lt, lo, hi) = (self.p.et(), self.p.lt(), self.p.min_ms(), self.p.max_ms());
+        let inner_calls = Arc::new(AtomicU64::new(0));
+        let hooks = Hooks {
+            e: Box::new(|| TL_DECS.with(|d| d.borrow_mut().push(Dec::Error))),
+            l: Box::new(|d| TL_DECS.with(|v| v.borrow_mut().push(Dec::Lat(d.as_millis() as u64)))),
+            p: Box::new(|| TL_DECS.with(|d| d.borrow_mut().push(Dec::Pass))),
+        };
+        let every = if et == P53 {
+            Some(Dec::Error)
+        } else if et == 0 && lt == 0 {
+            Some(Dec::Pass)
+        } else {
+            None
+        };
+        let t0 = wall_us();
+        let out = build(Counting(inner_calls.clone()), &self.p, hooks, Stress { threads, calls, every });
+        let wall = wall_us().saturating_sub(t0);
+        if out.aborted {
+            log_raw("#harness-panic stress: could not create the threads / their runtimes".into());
+            return;
+        }
+        let inner_total = inner_calls.load(Ordering::SeqCst);
+        let mut seen: BTreeMap<Dec, u64> = BTreeMap::new();
+        let (mut failed, mut returned, mut pending, mut anomalies, mut decided) = (0u64, 0u64, 0u64, 0u64, 0u64);
+        let mut first_anomaly: Option<String> = None;
+        let mut first_undemanded: Option<String> = None;
+        for t in &out.per_thread {
+            failed += t.failed;
+            returned += t.returned;
+            pending += t.pending;
+            anomalies += t.anomalies;
+            decided += t.decs.len() as u64;
+            if first_anomaly.is_none() {
+                first_anomaly = t.anomaly.clone();
+            }
+            if first_undemanded.is_none() {
+                first_undemanded = t.undemanded.clone();
+            }
+            for d in &t.decs {
+                *seen.entry(*d).or_insert(0) += 1;
+            }
+        }
+        let performed = failed + returned + pending;
+        // the first `performed` decisions of the seed's stream, sequentially
+        let mut want: BTreeMap<Dec, u64> = BTreeMap::new();
+        let mut o = StdRng::seed_from_u64(self.p.seed);
+        for _ in 0..performed {
+            *want.entry(decide_next(&mut o, et, lt, lo, hi)).or_insert(0) += 1;
+        }
+        let count = |m: &BTreeMap<Dec, u64>, f: fn(&Dec) -> bool| -> u64 { m.iter().filter(|(d, _)| f(d)).map(|(_, n)| *n).sum() };
+        let (ne, nl, np) = (
+            count(&seen, |d| matches!(d, Dec::Error)),
+            count(&seen, |d| matches!(d, Dec::Lat(_))),
+            count(&seen, |d| matches!(d, Dec::Pass)),
+        );
+        let cfg = format!("threads={} calls={} seed={} eT={} lT={} range=[{},{}]ms", threads, calls, self.p.seed, et, lt, lo, hi);
+        let totals = format!(
+            "totals over {} calls: {} failed with the injected error, {} returned at once, {} delayed; inner service called {} time(s); decisions reported: {} error, {} delay, {} pass",
+            performed, failed, returned, pending, inner_total, ne, nl, np
+        );
+        let mut fails: Vec<String> = Vec::new();
+        if et == P53 && (failed != performed || inner_total != 0) {
+            fails.push(format!(
+                "error rate 1 but {} of {} calls did not fail and the inner service was called {} time(s); first: {}",
+                performed - failed,
+                performed,
+                inner_total,
+                first_undemanded.clone().unwrap_or_default()
+            ));
+        }
+        if et == 0 && lt == 0 && (returned != performed || inner_total != performed) {
+            fails.push(format!(
+                "both rates 0 but only {} of {} calls passed straight through; first: {}",
+                returned,
+                performed,
+                first_undemanded.clone().unwrap_or_default()
+            ));
+        }
+        if let Some(a) = &first_anomaly {
+            fails.push(format!("{} call(s) contradict the decision reported for them; first: {}", anomalies, a));
+        }
+        if seen != want {
+            let mut diff: Vec<String> = Vec::new();
+            let keys: std::collections::BTreeSet<Dec> = seen.keys().chain(want.keys()).cloned().collect();
+            for k in keys {
+                let (a, b) = (seen.get(&k).cloned().unwrap_or(0), want.get(&k).cloned().unwrap_or(0));
+                if a != b && diff.len() < 6 {
+                    diff.push(format!("{}: observed {} expected {}", k, a, b));
+                }
+            }
+            fails.push(format!(
+                "the multiset of the {} decisions differs from that of the first {} decisions of the seed's stream ({})",
+                decided,
+                performed,
+                diff.join("; ")
+            ));
+        }
+        log_raw(format!("#stress {} performed={} wall_us={} fails={}", cfg, performed, wall, fails.len()));
+        if !fails.is_empty() {
+            log_raw(format!("#stress-fail {} :: {} :: {}", cfg, fails.join(" | "), totals));
+        }
+        obs("ne", ne);
+        obs("nl", nl);
+        obs("np", np);
+        log(format!("stress calls={} errors={} delayed={} passed={} anomalies={}", performed, ne, nl, np, anomalies));
+    }
+}
+
 impl Mw for Adapter {
     fn arrive(&mut self, c: usize, kv: &Kv) -> Option<CallFut> {
         let req = Req::new(c, kv);
-        let fa = (self.make_a)(req.clone());
-        let fb = (self.make_b)(req);
-        let (Some(fa), Some(fb)) = (fa, fb) else {
+        let Some(fa) = (self.make_a)(req.clone()) else {
             log(format!("result {} notready", c));
             return None;
         };
         Some(Box::pin(Pair {
             c,
             fa,
-            fb: Some(fb),
+            req_b: Some(req),
+            make_b: self.make_b.clone(),
+            fb: None,
             b_res: None,
             first: true,
             reported: false,
             a_calls: self.a_calls.clone(),
             b_calls: self.b_calls.clone(),
             mirror: self.mirror.clone(),
+            oracle: self.oracle.clone(),
+            cur: self.cur.clone(),
+            cur_b: self.cur_b.clone(),
             lo: self.p.min_ms(),
             hi: self.p.max_ms(),
-            et: self.p.erate.map(threshold).unwrap_or(0),
-            lt: threshold(self.p.lrate),
+            et: self.p.et(),
+            lt: self.p.lt(),
         }))
     }
     fn probe(&mut self, what: &str, _kv: &Kv) {
         if what == "cfg" {
-            let et = self.p.erate.map(threshold).unwrap_or(0);
-            let lt = threshold(self.p.lrate);
+            let et = self.p.et();
+            let lt = self.p.lt();
             obs("eT", et);
             obs("lT", lt);
             log(format!("probe cfg eT={} lT={}", et, lt));
+        }
+    }
+    fn manual(&mut self, what: &str, kv: &Kv) {
+        if what == "stress" {
+            // the thresholds travel with the op (a shrunk case may have lost `probe cfg`)
+            obs("eT", self.p.et());
+            obs("lT", self.p.lt());
+            self.stress(kv);
         }
     }
 }
